@@ -416,20 +416,23 @@ def u8_absent_statistic_pinned(ctx) -> None:
         raise AnalysisError("U8: CartesianProduct.__init__ no longer walks the parent's statistics per child")
     lp = loops[0]
     k = lp.target.id
-    outer = C.enclosing_loops(f, lp)[0]
-    tabs = [norm(e) for e in ast.walk(outer.target) if isinstance(e, ast.Name)]
-    # the table of this child: the name bound from self.extra_parameters in the outer loop
-    par = None
-    if isinstance(outer.iter, ast.Call) and norm(outer.iter.func) == "zip" and isinstance(outer.target, ast.Tuple):
-        for a, t in zip(outer.iter.args, outer.target.elts):
-            if norm(a) == "self.extra_parameters" and isinstance(t, ast.Name):
-                par = t.id
-    if par is None:
-        raise AnalysisError("U8: cannot tell which name is the child's statistic table in CartesianProduct.__init__")
+    # the child's table: what membership of k is tested in
+    tables = set()
+    for x in walk_local(lp):
+        if isinstance(x, ast.Compare) and len(x.ops) == 1 and isinstance(x.ops[0], (ast.In, ast.NotIn)) and norm(x.left) == k and isinstance(x.comparators[0], ast.Name):
+            tables.add(x.comparators[0].id)
+    if len(tables) != 1:
+        raise AnalysisError(f"U8: cannot tell which name is the child's statistic table in CartesianProduct.__init__ (membership of `{k}` is tested in {sorted(tables)})")
+    par = next(iter(tables))
     absent = {f"{k} in {par}": False}
     for which in ("min_child_sizes", "max_child_sizes"):
-        stores = [st for st in walk_local(lp) for t, v in [(_tv(st))] if t is not None and isinstance(t, ast.Subscript) and isinstance(t.value, ast.Subscript)
-                  and norm(t.value.value) == f"self.{which}" and norm(t.slice) == k]
+        stores = []
+        for st in walk_local(lp):
+            t, v = _tv(st)
+            if isinstance(t, ast.Subscript) and norm(t.slice) == k:
+                base = D.expanded(f, t.value)
+                if isinstance(base, ast.Subscript) and norm(base.value) == f"self.{which}":
+                    stores.append(st)
         pinned = False
         for st in stores:
             t, v = _tv(st)
